@@ -19,12 +19,15 @@ func init() {
 		Technique: "taint-style instance table (5 sink operand classes of Request.write/Header.WriteSubset x 3 frontend sources): value-flow of each wire string back to its origin, sanitiser recognition at the sinks (strings.Replacer table, net/url parse gate), validator recognition at the sources (path rules in the HPACK emit closure of readMetaFrame, validator-gate search in the SPDY parser) with the validators' verdict for CR/LF/NUL decided by conditional constant propagation; dominance order of the writes in Request.write; use-after-release search over storage-sharing SSA values for the pooled header sorter; path walk from every body-consuming call to the returns with phi resolution and nil-test bookkeeping (error delivered or known nil)",
 		Meta: core.Meta{
 			Level:       "other",
-			Explanation: "Decides, for every string Request.write / Header.WriteSubset / transferWriter.WriteHeader put on the backend connection: (sinks) the request line is \"%s %s HTTP/1.1\\r\\n\" of (Method, target) and is written before everything else, the Host line is \"Host: %s\\r\\n\", header lines are key \": \" value \"\\r\\n\" with the value passed through headerNewlineToSpace (a Replacer that maps both CR and LF to CR/LF-free text), the header block is terminated by one CRLF after the header lines and before the body, framing headers of the client are excluded from the copied header map, the request-target is either an escaped URL.RequestURI(), or the raw RequestURI only under a successful url.ParseRequestURI of that same string, or the host; (sources) which call produces Method, Host, RequestURI, URL and Header in each of the three frontends (HTTP/1 ReadRequest: the request line / header block read by the line reader; HTTP/2 newWriterAndRequest: MetaHeadersFrame pseudo values and the header map built from RegularFields; SPDY newWriterAndRequest: the header block parsed by parseHeaderValueBlock); (validators) in readMetaFrame's emit closure a field reaches mh.Fields only if validHeaderFieldValue(hf.Value) held and, for non-pseudo fields, validHeaderFieldName(hf.Name) held (every failing verdict stores a non-nil error that is tested before the append and makes readMetaFrame fail), validHeaderFieldValue rejects CR, LF and NUL, validHeaderFieldName accepts only RFC 7230 token bytes; for SPDY a validity gate over name / value bytes must dominate Header.Add in parseHeaderValueBlock (or the request construction). Each (sink, source) pair is discharged by a sink sanitiser or a source validator. (pool) after a pooled serialisation object (headerSorter) is handed back to its free list - send on a package-level channel of pointers, sync.Pool.Put, or a helper doing so - no path uses or returns the object or a value sharing its storage, so the header lines being written cannot be overwritten by a concurrent request. (body) the request on the wire is complete or Request.write says so: in transferWriter.WriteBody, in the bfe_http helpers the body is passed to and at the calls of those functions (Request.write), the error result of every call that consumes the request body (transferWriter.Body, a library wrapper of it such as io.LimitReader, or a parameter bound to it among its operands) is, on every path from the call to a return, either tested to be nil or the error returned (or replaced by a certainly non-nil error); a discarded result or one overwritten by the outcome of a later call (drain, Close) is reported, because body read errors are not sticky and persistConn.writeLoop reuses the backend connection when Write returns nil. Not covered: rewrites by modules between frontend and transport, delivery of errors that are stored into variables that escape (noted), write errors of the buffered backend writer (sticky, surfaced by Flush), SP inside an HTTP/2 :method, bare CR in HTTP/1 lines (the line reader only excludes LF), equality of forwarded and accepted fields, the Trailer announcement line (keys come from validated values).",
+			Explanation: "Decides, for every string Request.write / Header.WriteSubset / transferWriter.WriteHeader put on the backend connection: (sinks) the request line is \"%s %s HTTP/1.1\\r\\n\" of (Method, target) and is written before everything else, the Host line is \"Host: %s\\r\\n\", header lines are key \": \" value \"\\r\\n\" with the value passed through headerNewlineToSpace (a Replacer that maps both CR and LF to CR/LF-free text), the header block is terminated by one CRLF after the header lines and before the body, framing headers of the client are excluded from the copied header map, the request-target is either an escaped URL.RequestURI(), or the raw RequestURI only under a successful url.ParseRequestURI of that same string, or the host; (sources) which call produces Method, Host, RequestURI, URL and Header in each of the three frontends (HTTP/1 ReadRequest: the request line / header block read by the line reader; HTTP/2 newWriterAndRequest: MetaHeadersFrame pseudo values and the header map built from RegularFields; SPDY newWriterAndRequest: the header block parsed by parseHeaderValueBlock); (validators) in readMetaFrame's emit closure a field reaches mh.Fields only if validHeaderFieldValue(hf.Value) held and, for non-pseudo fields, validHeaderFieldName(hf.Name) held (every failing verdict stores a non-nil error that is tested before the append and makes readMetaFrame fail), validHeaderFieldValue rejects CR, LF and NUL, validHeaderFieldName accepts only RFC 7230 token bytes; for SPDY a validity gate over name / value bytes must dominate Header.Add in parseHeaderValueBlock (or the request construction). Each (sink, source) pair is discharged by a sink sanitiser or a source validator. (pool) after a pooled serialisation object (headerSorter) is handed back to its free list - send on a package-level channel of pointers, sync.Pool.Put, or a helper doing so - no path uses or returns the object or a value sharing its storage, so the header lines being written cannot be overwritten by a concurrent request. (body) the request on the wire is complete or Request.write says so: in transferWriter.WriteBody, in the bfe_http helpers the body is passed to and at the calls of those functions (Request.write), the error result of every call that consumes the request body (transferWriter.Body, a library wrapper of it such as io.LimitReader, or a parameter bound to it among its operands) is, on every path from the call to a return, either tested to be nil or the error returned (or replaced by a certainly non-nil error); a discarded result or one overwritten by the outcome of a later call (drain, Close) is reported, because body read errors are not sticky and persistConn.writeLoop reuses the backend connection when Write returns nil. Not covered: rewrites by modules between frontend and transport, delivery of errors that are stored into variables that escape (noted), write errors of the buffered backend writer (sticky, surfaced by Flush), SP inside an HTTP/2 :method, bare CR in HTTP/1 lines (the line reader only excludes LF), equality of forwarded and accepted fields, the Trailer announcement line (keys come from validated values). Robustness: the header-line literal is looked for in WriteSubset / writeSubsetWithoutSort and the helpers of the package they call (a value passed to such a helper must be sanitised at every call site, a value returned by one on every return; the key is followed to the map key / keyValues.key through parameters), the request-target through helpers that compute it (every returned value with the facts at that return), write order and origins through private helpers of Request.write / newWriterAndRequest. Not followed: the validators of the HPACK emit closure or of parseHeaderValueBlock moved into a helper that wraps several of them; a conditional fast path around headerNewlineToSpace.Replace is reported (it cannot be told from a missed sanitiser without reasoning about the skipped strings).",
 			RuleText:    "obligations = sink shape/order/sanitiser instances, h2 validator path instances, origin of each Request field per frontend, 15 (sink operand, source) pairs, each free-list release site of bfe_http / textproto / bfe_bufio, each body-consuming call with an error result on the request write path",
 			Assumptions: []string{"net/url.ParseRequestURI rejects control bytes and (*url.URL).RequestURI() emits an escaped target", "bfe_bufio.Reader.ReadLine returns LF-free lines", "hpack delivers every decoded field to the emit function"},
 		},
 		Run: runC25,
 		Mutants: []Mutant{
+			{Name: "silent-header-line-writer-helper", Silent: true, File: "bfe_http/header.go", Old: "\t\t\tfor _, s := range []string{kv.key, \": \", v, \"\\r\\n\"} {\n\t\t\t\tif _, err := ws.WriteString(s); err != nil {\n\t\t\t\t\treturn err\n\t\t\t\t}\n\t\t\t}\n\t\t}\n\t}\n\tselect {\n\tcase headerSorterCache <- sorter:\n\tdefault:\n\t}\n\treturn nil\n}\n", New: "\t\t\tif err := writeHeaderLine(ws, kv.key, v); err != nil {\n\t\t\t\treturn err\n\t\t\t}\n\t\t}\n\t}\n\tselect {\n\tcase headerSorterCache <- sorter:\n\tdefault:\n\t}\n\treturn nil\n}\n\n// writeHeaderLine writes \"name: value\\r\\n\"; value must already be free of CR and LF.\nfunc writeHeaderLine(out writeStringer, name, value string) error {\n\tfor _, part := range []string{name, \": \", value, \"\\r\\n\"} {\n\t\tif _, err := out.WriteString(part); err != nil {\n\t\t\treturn err\n\t\t}\n\t}\n\treturn nil\n}\n"},
+			{Name: "silent-request-target-in-helper", Silent: true, File: "bfe_http/request.go", Old: "// extraHeaders may be nil\nfunc (req *Request) write(w io.Writer, usingProxy bool, extraHeaders Header) error {\n\thost := req.Host\n\tif host == \"\" {\n\t\tif req.URL == nil {\n\t\t\treturn errors.New(\"http: Request.Write on Request with no Host or URL set\")\n\t\t}\n\t\thost = req.URL.Host\n\t}\n\n\truri := req.URL.RequestURI()\n\tif usingProxy && req.URL.Scheme != \"\" && req.URL.Opaque == \"\" {\n\t\truri = req.URL.Scheme + \"://\" + host + ruri\n\t} else if req.Method == MethodConnect && req.URL.Path == \"\" {\n\t\t// CONNECT requests normally give just the host and port, not a full URL.\n\t\truri = host\n\t} else {\n\t\t// use req.RequestUri instead of req.URL.RequestURI() (decoded/encoded)\n\t\t// to be compatible with non-standard web server ONLY WHEN URL not changed since\n\t\t// ReadRequest()\n\t\trawurl, err := url.ParseRequestURI(req.RequestURI)\n\t\tif err == nil && rawurl.RequestURI() == ruri {\n\t\t\tif rawurl.Scheme == \"\" && rawurl.Host == \"\" && rawurl.Opaque == \"\" {\n\t\t\t\t// if RequestUri contains Scheme Host Opaque, no replace\n\t\t\t\truri = req.RequestURI\n\t\t\t}\n\t\t}\n\t}\n", New: "// requestTarget returns the request-target to put on the request line.\nfunc (r *Request) requestTarget(viaProxy bool, hostport string) string {\n\tescaped := r.URL.RequestURI()\n\tif viaProxy && r.URL.Scheme != \"\" && r.URL.Opaque == \"\" {\n\t\treturn r.URL.Scheme + \"://\" + hostport + escaped\n\t}\n\tif r.Method == MethodConnect && r.URL.Path == \"\" {\n\t\t// CONNECT requests normally give just the host and port, not a full URL.\n\t\treturn hostport\n\t}\n\t// use r.RequestURI instead of r.URL.RequestURI() (decoded/encoded)\n\t// to be compatible with non-standard web server ONLY WHEN URL not changed since\n\t// ReadRequest()\n\traw, err := url.ParseRequestURI(r.RequestURI)\n\tif err != nil || raw.RequestURI() != escaped {\n\t\treturn escaped\n\t}\n\tif raw.Scheme == \"\" && raw.Host == \"\" && raw.Opaque == \"\" {\n\t\t// if RequestUri contains Scheme Host Opaque, no replace\n\t\treturn r.RequestURI\n\t}\n\treturn escaped\n}\n\n// extraHeaders may be nil\nfunc (req *Request) write(w io.Writer, usingProxy bool, extraHeaders Header) error {\n\thost := req.Host\n\tif host == \"\" {\n\t\tif req.URL == nil {\n\t\t\treturn errors.New(\"http: Request.Write on Request with no Host or URL set\")\n\t\t}\n\t\thost = req.URL.Host\n\t}\n\n\truri := req.requestTarget(usingProxy, host)\n"},
+			{Name: "silent-header-terminator-named", Silent: true, File: "bfe_http/request.go", Old: "\tio.WriteString(w, \"\\r\\n\")\n\n\t// flush req header immediately", New: "\tendOfHeader := \"\\r\\n\"\n\tio.WriteString(w, endOfHeader)\n\n\t// flush req header immediately"},
 			{Name: "value-not-sanitised", File: "bfe_http/header.go", Old: "	kvs, sorter := h.sortedKeyValues(exclude)\n	for _, kv := range kvs {\n		for _, v := range kv.values {\n			v = headerNewlineToSpace.Replace(v)\n", New: "	kvs, sorter := h.sortedKeyValues(exclude)\n	for _, kv := range kvs {\n		for _, v := range kv.values {\n", Expect: "sink|WriteSubset:value-sanitised"},
 			{Name: "replacer-misses-cr", File: "bfe_http/header.go", Old: "strings.NewReplacer(\"\\n\", \" \", \"\\r\", \" \")", New: "strings.NewReplacer(\"\\n\", \" \")", Expect: "sink|headerNewlineToSpace"},
 			{Name: "raw-uri-unparsed", File: "bfe_http/request.go", Old: "		if err == nil && rawurl.RequestURI() == ruri {", New: "		if err != nil || rawurl.RequestURI() == ruri {", Expect: "sink|write:target"},
@@ -131,7 +134,37 @@ func (w *c25Walker) walk(v ssa.Value, d int) {
 			w.out["result:"+core.CalleeKey(&call.Call)+fmt.Sprintf("#%d", x.Index)] = true
 			return
 		}
+		// the key of a range over a header map
+		if nx, ok := x.Tuple.(*ssa.Next); ok && x.Index == 1 {
+			if rg, ok := nx.Iter.(*ssa.Range); ok && h1cIsStringListMap(rg.X.Type()) {
+				w.out["header-key"] = true
+				return
+			}
+		}
 		w.out["?"+core.Render(x)] = true
+	case *ssa.Parameter:
+		// a parameter of a helper of the package: what its call sites pass
+		fn := x.Parent()
+		sites := h1rSites(fn)
+		idx := -1
+		for i, q := range fn.Params {
+			if q == x {
+				idx = i
+			}
+		}
+		if idx < 0 || len(sites) == 0 || !h1rIsHelperLike(fn) {
+			w.out["?"+core.Render(x)] = true
+			return
+		}
+		for _, s := range sites {
+			if idx < len(s.Common().Args) {
+				w.walk(s.Common().Args[idx], d+1)
+			} else {
+				w.out["?"+core.Render(x)] = true
+			}
+		}
+	case *ssa.Field:
+		w.out["field:"+strings.TrimPrefix(core.TypeStr(x.X.Type()), "*")+"."+c25FieldName(x.X.Type(), x.Field)] = true
 	case *ssa.Lookup:
 		if core.TypeStr(x.X.Type()) == "bfe_http.Header" {
 			w.out["header-value("+w.headerOrigin(x.X)+")"] = true
@@ -203,7 +236,7 @@ func c25Subset(got []string, allowed ...string) bool {
 // returns the field stores of the first one.
 func c25RequestStores(fn *ssa.Function) (map[string]*ssa.Store, *ssa.Alloc) {
 	var found *ssa.Alloc
-	core.Instrs(fn, func(in ssa.Instruction) {
+	h1rRegionInstrs(fn, func(in ssa.Instruction) {
 		if al, ok := in.(*ssa.Alloc); ok && found == nil && core.TypeStr(al.Type()) == "*bfe_http.Request" && al.Heap {
 			found = al
 		}
@@ -242,6 +275,13 @@ func runC25(c *core.Ctx) {
 		c.Missing("bfe_http")
 		return
 	}
+	defer h1rRegister(c.P)()
+	h1rAnchors(c.P, "bfe_http", "Request.write", "transferWriter.WriteBody", "transferWriter.WriteHeader", "Header.WriteSubset", "Header.writeSubsetWithoutSort",
+		"Header.sortedKeyValues", "ReadRequest", "parseRequestLine", "valueOrDefault", "chunked", "readTransfer", "newChunkedWriter")
+	h1rAnchors(c.P, "bfe_http2", "Framer.readMetaFrame", "validHeaderFieldValue", "validHeaderFieldName", "serverConn.newWriterAndRequest", "serverConn.canonicalHeader",
+		"headerFieldValueError", "headerFieldNameError")
+	h1rAnchors(c.P, "bfe_spdy", "serverConn.newWriterAndRequest", "parseHeaderValueBlock", "Framer.readSynStreamFrame")
+	h1rAnchors(c.P, "bfe_net/textproto", "Reader.ReadLine", "Reader.readContinuedLineSlice", "Reader.readLineSlice", "Reader.ReadMIMEHeaderAndKeys")
 	fx := h1aNewFacts()
 	st := &c25State{sinkSanitised: map[string]bool{}, validated: map[string]map[string]bool{"h1": {}, "h2": {}, "spdy": {}}, origins: map[string]map[string]bool{"h1": {}, "h2": {}, "spdy": {}}, why: map[string]string{}}
 	c25Sinks(c, fx, st)
@@ -446,7 +486,7 @@ func c25IsWriteString(ci ssa.CallInstruction, w ssa.Value, s string) bool {
 		return false
 	}
 	k, ok := core.ConstString(cc.Args[1])
-	return ok && k == s && (w == nil || cc.Args[0] == w)
+	return ok && k == s && (w == nil || cc.Args[0] == w || h1aRes(cc.Args[0]) == h1aRes(w))
 }
 
 // c25GlobalMapKeys returns the constant string keys (with value true) of a
@@ -479,6 +519,67 @@ func c25GlobalMapKeys(p *ssa.Package, name string) map[string]bool {
 	return out
 }
 
+// c25Sanitised: v went through headerNewlineToSpace.Replace (possibly trimmed
+// afterwards). A call of a function of the module is followed into its returned
+// values (every one must be sanitised), a parameter of a helper to the
+// arguments at all of its call sites.
+func c25Sanitised(v ssa.Value, d int) bool {
+	if d > 5 {
+		return false
+	}
+	switch x := h1aResolve(v).(type) {
+	case *ssa.Call:
+		if core.CallIs(&x.Call, "strings.Replacer.Replace") && len(x.Call.Args) == 2 {
+			if ld, ok := x.Call.Args[0].(*ssa.UnOp); ok {
+				if g, ok := ld.X.(*ssa.Global); ok && g.Name() == "headerNewlineToSpace" {
+					return true
+				}
+			}
+			return false
+		}
+		if core.CallIs(&x.Call, "bfe_net/textproto.TrimString", "strings.TrimSpace") && len(x.Call.Args) == 1 {
+			return c25Sanitised(x.Call.Args[0], d+1)
+		}
+		sc := x.Call.StaticCallee()
+		if sc == nil || sc.Blocks == nil || core.FuncPkgRel(sc) == "" || x.Call.Signature().Results().Len() != 1 {
+			return false
+		}
+		rets := core.Returns(sc)
+		for _, r := range rets {
+			rv := core.RetVals(r)
+			if len(rv) != 1 || !c25Sanitised(rv[0], d+1) {
+				return false
+			}
+		}
+		return len(rets) > 0
+	case *ssa.Phi:
+		for _, e := range x.Edges {
+			if !c25Sanitised(e, d+1) {
+				return false
+			}
+		}
+		return len(x.Edges) > 0
+	case *ssa.Parameter:
+		fn := x.Parent()
+		sites := h1rSites(fn)
+		if len(sites) == 0 || !h1rIsHelperLike(fn) {
+			return false
+		}
+		for i, q := range fn.Params {
+			if q != x {
+				continue
+			}
+			for _, s := range sites {
+				if i >= len(s.Common().Args) || !c25Sanitised(s.Common().Args[i], d+1) {
+					return false
+				}
+			}
+			return true
+		}
+	}
+	return false
+}
+
 func c25Sinks(c *core.Ctx, fx *h1aFacts, st *c25State) {
 	const pkg = "bfe_http"
 	c.Min("sink", 14)
@@ -489,7 +590,7 @@ func c25Sinks(c *core.Ctx, fx *h1aFacts, st *c25State) {
 	}
 	c.Analysed(core.FuncKey(fn))
 	var reqLine, hostLine ssa.CallInstruction
-	for _, ci := range core.Calls(fn, "fmt.Fprintf") {
+	for _, ci := range h1rRegionCalls(fn, "fmt.Fprintf") {
 		f, _ := core.ConstString(ci.Common().Args[1])
 		switch {
 		case strings.HasPrefix(f, "%s %s HTTP/1."):
@@ -510,22 +611,52 @@ func c25Sinks(c *core.Ctx, fx *h1aFacts, st *c25State) {
 	c.Check("sink", "write:request-line-format", reqLine.Pos(), f == "%s %s HTTP/1.1\r\n" && len(ops) == 2, fmt.Sprintf("the request line must be written as \"%%s %%s HTTP/1.1\\r\\n\" of (method, target); format %q with %d operands", f, len(ops)))
 	hf, _ := core.ConstString(hostLine.Common().Args[1])
 	hops := h1aVarargs(hostLine.Common().Args[2])
-	c.Check("sink", "write:host-line-format", hostLine.Pos(), hf == "Host: %s\r\n" && len(hops) == 1 && hostLine.Common().Args[0] == w, fmt.Sprintf("the Host line must be \"Host: %%s\\r\\n\" on the same writer; format %q", hf))
+	c.Check("sink", "write:host-line-format", hostLine.Pos(), hf == "Host: %s\r\n" && len(hops) == 1 && h1aRes(hostLine.Common().Args[0]) == h1aRes(w), fmt.Sprintf("the Host line must be \"Host: %%s\\r\\n\" on the same writer; format %q", hf))
 	if len(ops) == 2 {
 		mo := c25Origins(c, ops[0])
 		c.Check("sink", "write:method-operand", reqLine.Pos(), c25Subset(mo, "field:bfe_http.Request.Method", "const"), "the method written is "+strings.Join(mo, ", ")+", expected Request.Method (default GET)")
-		// request-target: every leaf
-		var leaves []ssa.Value
-		var preds []*ssa.BasicBlock
-		tv := core.StripConv(ops[1])
-		if phi, ok := tv.(*ssa.Phi); ok {
-			leaves, preds = phi.Edges, phi.Block().Preds
-		} else {
-			leaves, preds = []ssa.Value{tv}, []*ssa.BasicBlock{nil}
+		// request-target: every leaf (phi edges, and the values returned by a
+		// helper of the package that computes the target) with the facts that
+		// hold where that leaf is chosen
+		type leaf struct {
+			v  ssa.Value
+			fs []h1aFact
+		}
+		var leaves []leaf
+		var collect func(v ssa.Value, fs []h1aFact, d int)
+		collect = func(v ssa.Value, fs []h1aFact, d int) {
+			v = core.StripConv(v)
+			if d < 4 {
+				if phi, ok := v.(*ssa.Phi); ok {
+					for i, e := range phi.Edges {
+						collect(e, append(append([]h1aFact{}, fs...), fx.Edge(phi.Block().Preds[i], phi.Block())...), d+1)
+					}
+					return
+				}
+				if call, ok := v.(*ssa.Call); ok {
+					if h := call.Call.StaticCallee(); h != nil && h1rIsHelperLike(h) && core.FuncPkgRel(h) == pkg && call.Call.Signature().Results().Len() == 1 {
+						for _, r := range core.Returns(h) {
+							collect(core.RetVals(r)[0], append(append([]h1aFact{}, fs...), fx.At(r.Block())...), d+1)
+						}
+						return
+					}
+				}
+			}
+			leaves = append(leaves, leaf{v, fs})
+		}
+		collect(ops[1], fx.At(reqLine.Block()), 0)
+		var parses []*ssa.Call
+		for _, g := range h1rClosure(fn) {
+			for _, pc := range core.Calls(g, "net/url.ParseRequestURI") {
+				if call, isCall := pc.(*ssa.Call); isCall {
+					parses = append(parses, call)
+				}
+			}
 		}
 		allOK := true
 		kinds := map[string]bool{}
-		for i, l := range leaves {
+		for _, lf := range leaves {
+			l := lf.v
 			og := c25Origins(c, l)
 			kind := strings.Join(og, "+")
 			ok := true
@@ -534,16 +665,9 @@ func c25Sinks(c *core.Ctx, fx *h1aFacts, st *c25State) {
 				case "escaped-url", "const", "url-field:Scheme", "url-field:Host", "field:bfe_http.Request.Host":
 				case "field:bfe_http.Request.RequestURI":
 					// only under a successful parse of that very string
-					var fs []h1aFact
-					if preds[i] != nil {
-						fs = fx.Edge(preds[i], tv.(*ssa.Phi).Block())
-					} else {
-						fs = fx.At(reqLine.Block())
-					}
 					gated := false
-					for _, pc := range core.Calls(fn, "net/url.ParseRequestURI") {
-						call, isCall := pc.(*ssa.Call)
-						if !isCall || !h1aErrIs(fs, call, 1, true) {
+					for _, call := range parses {
+						if !h1aErrIs(lf.fs, call, 1, true) {
 							continue
 						}
 						if ao := c25Origins(c, call.Call.Args[0]); c25Subset(ao, "field:bfe_http.Request.RequestURI") {
@@ -578,7 +702,7 @@ func c25Sinks(c *core.Ctx, fx *h1aFacts, st *c25State) {
 	}
 	// order
 	var tw, ws, term, body ssa.CallInstruction
-	for _, ci := range core.AllCalls(fn) {
+	for _, ci := range h1rRegionAllCalls(fn) {
 		switch {
 		case core.CallIs(ci.Common(), pkg+".transferWriter.WriteHeader"):
 			tw = ci
@@ -593,14 +717,14 @@ func c25Sinks(c *core.Ctx, fx *h1aFacts, st *c25State) {
 	if tw == nil || ws == nil || body == nil {
 		c.Check("sink", "write:order", fn.Pos(), false, "transferWriter.WriteHeader / Header.WriteSubset / transferWriter.WriteBody not all found in Request.write")
 	} else {
-		dom := func(a, b ssa.CallInstruction) bool { return core.Dominates(a.(ssa.Instruction), b.(ssa.Instruction)) }
+		dom := func(a, b ssa.CallInstruction) bool { return h1rDominates(a.(ssa.Instruction), b.(ssa.Instruction), fn) }
 		c.Check("sink", "write:order", fn.Pos(), dom(reqLine, hostLine) && dom(reqLine, tw) && dom(reqLine, ws) && dom(hostLine, body) && dom(tw, body) && dom(ws, body),
 			"the request line must be written first and all header lines before the body")
 		okTerm := term != nil && dom(ws, term) && dom(tw, term) && dom(hostLine, term) && dom(term, body)
 		if okTerm {
 			// exactly one bare CRLF on w
 			n := 0
-			for _, ci := range core.AllCalls(fn) {
+			for _, ci := range h1rRegionAllCalls(fn) {
 				if c25IsWriteString(ci, w, "\r\n") {
 					n++
 				}
@@ -610,7 +734,7 @@ func c25Sinks(c *core.Ctx, fx *h1aFacts, st *c25State) {
 		c.Check("sink", "write:header-terminator", fn.Pos(), okTerm, "exactly one empty line (CRLF) must be written after all header lines and before the body")
 		// exclusion table
 		excl := false
-		if ld, ok := ws.Common().Args[2].(*ssa.UnOp); ok {
+		if ld, ok := h1aRes(ws.Common().Args[2]).(*ssa.UnOp); ok {
 			if g, ok := ld.X.(*ssa.Global); ok && g.Name() == "reqWriteExcludeHeader" {
 				excl = true
 			}
@@ -623,7 +747,7 @@ func c25Sinks(c *core.Ctx, fx *h1aFacts, st *c25State) {
 			}
 		}
 		c.Check("sink", "write:exclude-table", ws.Pos(), excl && len(missing) == 0, fmt.Sprintf("the client's header map must be copied without the fields Request.write emits itself (Host, Content-Length, Transfer-Encoding, Trailer): a second, client-controlled framing line would otherwise follow the computed one; missing %v, table used=%v", missing, excl))
-		c.Check("sink", "write:header-map", ws.Pos(), c23NewRx(fn, "req").R(ws.Common().Args[0]) == "req.Header" && ws.Common().Args[1] == w, "WriteSubset must write req.Header to the same writer")
+		c.Check("sink", "write:header-map", ws.Pos(), len(fn.Params) > 0 && h1rLoadOfField(h1aRes(ws.Common().Args[0]), fn.Params[0], "Header") && h1aRes(ws.Common().Args[1]) == h1aRes(w), "WriteSubset must write req.Header to the same writer")
 	}
 	// Header.WriteSubset (+ unsorted variant when present)
 	valueOK, n := true, 0
@@ -638,53 +762,36 @@ func c25Sinks(c *core.Ctx, fx *h1aFacts, st *c25State) {
 		}
 		c.Analysed(core.FuncKey(hfn))
 		short := strings.TrimPrefix(name, "Header.")
-		// the 4-element line literal
+		// the {key, ": ", value, CRLF} literal(s) written by the function or by the
+		// helpers of the package it calls
 		var lits []*ssa.Alloc
-		core.Instrs(hfn, func(in ssa.Instruction) {
-			if al, ok := in.(*ssa.Alloc); ok && al.Comment == "slicelit" && strings.HasSuffix(core.TypeStr(al.Type()), "]string") {
-				lits = append(lits, al)
-			}
-		})
-		if len(lits) != 1 {
-			c.Check("sink", short+":line-shape", hfn.Pos(), false, fmt.Sprintf("expected one {key, \": \", value, CRLF} literal, found %d", len(lits)))
+		for _, g := range h1rClosure(hfn) {
+			core.Instrs(g, func(in ssa.Instruction) {
+				if al, ok := in.(*ssa.Alloc); ok && al.Comment == "slicelit" && strings.HasSuffix(core.TypeStr(al.Type()), "]string") {
+					lits = append(lits, al)
+				}
+			})
+		}
+		if len(lits) == 0 {
+			c.Check("sink", short+":line-shape", hfn.Pos(), false, "no {key, \": \", value, CRLF} literal found in "+name+" or the helpers it calls")
 			valueOK = false
 			continue
 		}
 		n++
-		el := h1aArrayLitStores(lits[0])
-		sep, _ := core.ConstString(el[1])
-		end, _ := core.ConstString(el[3])
-		c.Check("sink", short+":line-shape", lits[0].Pos(), len(el) == 4 && sep == ": " && end == "\r\n", fmt.Sprintf("a header line must be key \": \" value CRLF; separator %q terminator %q (%d parts)", sep, end, len(el)))
-		san := false
-		if len(el) == 4 {
-			v := h1aResolve(el[2])
-			for i := 0; i < 4; i++ {
-				call, ok := v.(*ssa.Call)
-				if !ok {
-					break
-				}
-				if core.CallIs(&call.Call, "strings.Replacer.Replace") {
-					if ld, ok := call.Call.Args[0].(*ssa.UnOp); ok {
-						if g, ok := ld.X.(*ssa.Global); ok && g.Name() == "headerNewlineToSpace" {
-							san = true
-						}
-					}
-					break
-				}
-				if core.CallIs(&call.Call, "bfe_net/textproto.TrimString", "strings.TrimSpace") {
-					v = h1aResolve(call.Call.Args[0])
-					continue
-				}
-				break
+		for _, lit := range lits {
+			el := h1aArrayLitStores(lit)
+			sep, _ := core.ConstString(el[1])
+			end, _ := core.ConstString(el[3])
+			c.Check("sink", short+":line-shape", lit.Pos(), len(el) == 4 && sep == ": " && end == "\r\n", fmt.Sprintf("a header line must be key \": \" value CRLF; separator %q terminator %q (%d parts)", sep, end, len(el)))
+			san := len(el) == 4 && c25Sanitised(el[2], 0)
+			c.Check("sink", short+":value-sanitised", lit.Pos(), san, "the field value is written as "+core.Render(el[2])+" without passing headerNewlineToSpace.Replace: a CR or LF inside a value would start a new header line or request")
+			if !san {
+				valueOK = false
 			}
-		}
-		c.Check("sink", short+":value-sanitised", lits[0].Pos(), san, "the field value is written as "+core.Render(el[2])+" without passing headerNewlineToSpace.Replace: a CR or LF inside a value would start a new header line or request")
-		if !san {
-			valueOK = false
-		}
-		if len(el) == 4 {
-			ko := c25Origins(c, el[0])
-			c.Check("sink", short+":key-operand", lits[0].Pos(), len(ko) == 1 && (strings.HasSuffix(ko[0], ".key") || ko[0] == "?k" || strings.HasPrefix(ko[0], "?next(")), "the field name written is "+strings.Join(ko, ", ")+" (the map key, unsanitised: names rely on the frontends' validators)")
+			if len(el) == 4 {
+				ko := c25Origins(c, el[0])
+				c.Check("sink", short+":key-operand", lit.Pos(), c25Subset(ko, "header-key", "field:bfe_http.keyValues.key"), "the field name written is "+strings.Join(ko, ", ")+" (expected the map key, unsanitised: names rely on the frontends' validators)")
+			}
 		}
 	}
 	// the replacer table
@@ -725,13 +832,13 @@ func c25Sinks(c *core.Ctx, fx *h1aFacts, st *c25State) {
 		c.Missing(pkg + ".transferWriter.WriteHeader")
 	} else {
 		c.Analysed(core.FuncKey(wh))
-		for i, ci := range core.Calls(wh, "io.WriteString") {
+		for i, ci := range h1rRegionCalls(wh, "io.WriteString") {
 			og := c25Origins(c, ci.Common().Args[1])
 			ok := true
 			for _, o := range og {
 				switch {
 				case o == "const", o == "call:strconv.FormatInt", o == "call:strconv.Itoa":
-				case strings.HasPrefix(o, "?next("), o == "?k":
+				case o == "header-key":
 					// trailer key (range over t.Trailer), canonicalised: see Explanation
 				default:
 					ok = false
@@ -970,12 +1077,12 @@ func c25H2(c *core.Ctx, fx *h1aFacts, st *c25State) {
 	chk("RequestURI", "h2-pseudo-value", "header-value(local-map)")
 	// Header: the local map, filled from RegularFields only
 	if s := stores["Header"]; s != nil {
-		mm, isMap := s.Val.(*ssa.MakeMap)
+		mm, isMap := h1aResConv(s.Val).(*ssa.MakeMap)
 		ok := isMap
 		why := "Request.Header is " + core.Render(s.Val)
 		if isMap {
-			for _, ci := range core.Calls(nw, "bfe_http.Header.Add", "bfe_http.Header.Set") {
-				if ci.Common().Args[0] != ssa.Value(mm) {
+			for _, ci := range h1rRegionCalls(nw, "bfe_http.Header.Add", "bfe_http.Header.Set") {
+				if h1aResConv(ci.Common().Args[0]) != ssa.Value(mm) {
 					continue
 				}
 				ko, vo := c25Origins(c, ci.Common().Args[1]), c25Origins(c, ci.Common().Args[2])
@@ -984,15 +1091,15 @@ func c25H2(c *core.Ctx, fx *h1aFacts, st *c25State) {
 					why = fmt.Sprintf("the header map receives name %v value %v", ko, vo)
 				}
 			}
-			core.Instrs(nw, func(in ssa.Instruction) {
-				if mu, ok2 := in.(*ssa.MapUpdate); ok2 && mu.Map == ssa.Value(mm) {
+			h1rRegionInstrs(nw, func(in ssa.Instruction) {
+				if mu, ok2 := in.(*ssa.MapUpdate); ok2 && h1aResConv(mu.Map) == ssa.Value(mm) {
 					ok = false
 					why = "raw store into the request header map"
 				}
 			})
 			// the element ranged over comes from f.RegularFields()
-			rf := core.Calls(nw, pkg+".MetaHeadersFrame.RegularFields")
-			if len(rf) != 1 || rf[0].Common().Args[0] != ssa.Value(nw.Params[2]) {
+			rf := h1rRegionCalls(nw, pkg+".MetaHeadersFrame.RegularFields")
+			if len(rf) != 1 || len(nw.Params) < 3 || h1aRes(rf[0].Common().Args[0]) != ssa.Value(nw.Params[2]) {
 				ok = false
 				why = "the header fields are not taken from f.RegularFields()"
 			}
@@ -1003,7 +1110,7 @@ func c25H2(c *core.Ctx, fx *h1aFacts, st *c25State) {
 	// target parsed
 	okParse := false
 	if s := stores["URL"]; s != nil {
-		for _, pc := range core.Calls(nw, "net/url.ParseRequestURI") {
+		for _, pc := range h1rRegionCalls(nw, "net/url.ParseRequestURI") {
 			call, isCall := pc.(*ssa.Call)
 			if !isCall || !c25Subset(c25Origins(c, call.Call.Args[0]), "h2-pseudo-value") {
 				continue
@@ -1104,9 +1211,9 @@ func c25H1(c *core.Ctx, fx *h1aFacts, st *c25State) {
 	c.Check("source", "h1:line-reader", fn.Pos(), lineOK, "HTTP/1 request line and header lines must come from the LF-delimited line reader: "+why)
 	st.validated["h1"]["value"], st.validated["h1"]["name"] = lineOK, lineOK
 	okParse := false
-	for _, pc := range core.Calls(fn, "net/url.ParseRequestURI") {
+	for _, pc := range h1rRegionCalls(fn, "net/url.ParseRequestURI") {
 		if call, ok := pc.(*ssa.Call); ok {
-			for _, r := range core.Returns(fn) {
+			for _, r := range h1rReturns(fn) {
 				rv := core.RetVals(r)
 				if len(rv) == 2 && h1aIsNil(h1aResolve(rv[1])) && h1aErrIs(fx.At(r.Block()), call, 1, true) {
 					okParse = true
@@ -1160,7 +1267,7 @@ func c25Spdy(c *core.Ctx, fx *h1aFacts, st *c25State) {
 	}
 	okParse := false
 	if s := stores["URL"]; s != nil {
-		for _, pc := range core.Calls(nw, "net/url.ParseRequestURI") {
+		for _, pc := range h1rRegionCalls(nw, "net/url.ParseRequestURI") {
 			call, isCall := pc.(*ssa.Call)
 			if isCall && c25Subset(c25Origins(c, call.Call.Args[0]), blk) && h1aIsResultOf(s.Val, call, 0) && h1aErrIs(fx.At(s.Block()), call, 1, true) {
 				okParse = true
